@@ -95,7 +95,7 @@ def _fatal(out):
 
 
 def run_model(spec, cfg, workers=16, timeout=1800, simulate=None, depth=None, seed=None,
-              coverage=False, extra_env=None, heap="6g"):
+              coverage=False, extra_env=None, heap="6g", dump=False):
     """Check design model `spec`.tla with `cfg`. Returns dict with
     ok, generated, distinct, depth, violated (list of property names), out."""
     md = tempfile.mkdtemp(prefix="md.", dir=scratch())
@@ -108,9 +108,19 @@ def run_model(spec, cfg, workers=16, timeout=1800, simulate=None, depth=None, se
             args += ["-depth", str(depth)]
     if seed is not None:
         args += ["-seed", str(seed)]
+    dumpfile = None
+    if dump:
+        dumpfile = os.path.join(scratch(), f"dump_{os.path.basename(cfg)}_{os.getpid()}")
+        args += ["-dump", dumpfile]
     args.append(spec)
     rc, out, dt = _java(args, env=extra_env, timeout=timeout, heap=heap)
     shutil.rmtree(md, ignore_errors=True)
+    dumptext = None
+    if dump:
+        fn = dumpfile + ".dump" if os.path.exists(dumpfile + ".dump") else dumpfile
+        with open(fn) as f:
+            dumptext = f.read()
+        os.remove(fn)
     gen, dist, dep = _counts(out)
     violated = _RE_INV.findall(out) + _RE_ACTP.findall(out)
     if "Temporal properties were violated" in out:
@@ -126,7 +136,7 @@ def run_model(spec, cfg, workers=16, timeout=1800, simulate=None, depth=None, se
     if coverage:
         cov = parse_coverage(out)
     return dict(ok=ok, generated=gen, distinct=dist, depth=dep, violated=violated, out=out,
-                wall_s=dt, coverage=cov, spec=spec, cfg=cfg)
+                wall_s=dt, coverage=cov, spec=spec, cfg=cfg, dump=dumptext)
 
 
 _RE_COV = re.compile(r"<(\w+) line \d+, col \d+ to line \d+, col \d+ of module (\w+)>: (\d+):(\d+)")
@@ -139,7 +149,7 @@ def parse_coverage(out):
     return cov
 
 
-_RE_REJ = re.compile(r'<<"REJECTED", (\d+), "([^"]*)", "matched", (-?\d+), "of", (\d+), (.*)>>')
+_RE_REJ = re.compile(r'<<\s*"REJECTED",\s*(\d+),\s*"matched",\s*(-?\d+),\s*"of",\s*(\d+)\s*>>')
 
 
 def validate(spec, cfg, traces, timeout=3600, extra_env=None, heap="6g", dfs=False, keep=None):
@@ -164,7 +174,9 @@ def validate(spec, cfg, traces, timeout=3600, extra_env=None, heap="6g", dfs=Fal
     gen, dist, _ = _counts(out)
     rejected = []
     for m in _RE_REJ.finditer(out):
-        rejected.append((int(m.group(1)) - 1, m.group(2), int(m.group(3)), int(m.group(4)), m.group(5)))
+        k, matched, of = int(m.group(1)) - 1, int(m.group(2)), int(m.group(3))
+        nxt = traces[k]["ev"][matched] if 0 <= matched < len(traces[k]["ev"]) else "-"
+        rejected.append((k, traces[k]["id"], matched, of, json.dumps(nxt)))
     inv = []
     # split on error blocks: each "Error: Invariant X is violated." is followed by a behaviour
     parts = re.split(r"(Error: Invariant \w+ is violated)", out)
